@@ -282,7 +282,10 @@ func dbExtra(d *db, op simrt.Op) bool {
 		}
 		d.c.Probe("minmaxrow-checked")
 	case "allnodes": // S=[index,expr] : same query on every node, all answers equal and equal to the model
-		for i := range d.cl.nodes {
+		for i, nd := range d.cl.nodes {
+			if !nd.opened || nd.gone {
+				continue
+			}
 			d.checkQuery(S[0], parseExpr(S[1]), i, I[0] != 0)
 			if d.c.Failed() {
 				return true
